@@ -317,9 +317,9 @@ func dependsOnDeep(v, target ssa.Value, depth int, seen map[ssa.Value]bool) bool
 }
 
 func init() {
-	binBAI := RuleDef{Name: "BIN-PAIRS", What: "BAI/tabix: BinFor and OverlappingBinsFor use, level by level, the (first bin, shift) pairs of the UCSC scheme ((8^l−1)/7, 29−3l), end−1, inclusive enumeration; TileWidth, 37450, 4680", Floor: 5, Run: ruleBinPairsBAI}
+	binBAI := RuleDef{Name: "BIN-PAIRS", What: "BAI/tabix: BinFor and OverlappingBinsFor use, level by level, the (first bin, shift) pairs of the UCSC scheme ((8^l−1)/7, 29−3l), end−1, inclusive enumeration; TileWidth, 37450", Floor: 4, Run: ruleBinPairsBAI}
 	binCSI := RuleDef{Name: "BIN-PAIRS-CSI", What: "CSI: the level recurrences of reg2bin and reg2bins, interpreted for seven (minShift, depth) geometries (they do not depend on beg/end – checked), yield the scheme's pairs and agree with each other", Floor: 14, Run: ruleBinPairsCSI}
-	binUnplaced := RuleDef{Name: "BIN-UNPLACED", What: "sam.Record.Bin: the fixed bin 4680 exactly when both Unmapped and MateUnmapped are set, BinFor(Pos, End()) otherwise – evaluated over the flag combinations (added after fifth-round seeds C04-e and C16-e)", Floor: 2, Run: ruleBinUnplaced}
+	binUnplaced := RuleDef{Name: "BIN-UNPLACED", What: "sam.Record.Bin is a function of the position alone: BinFor(Pos, max(End(), Pos+1)) for every combination of the unmapped flags, and 4680 = reg2bin(-1, 0) for a read without position (added after fifth-round seeds C04-e and C16-e; restated after repo fix 9f5a73b – it used to demand the constant for unmapped pairs, which is what the code did, not what the specification says)", Floor: 3, Run: ruleBinUnplaced}
 	binOneWalk := RuleDef{Name: "BIN-ONE-WALK", What: "internal.OverlappingBinsFor: every returned list went through the walk over the level table (no bypassing fast path; added after fifth-round seed C16-f)", Floor: 1, Run: ruleBinOneWalk}
 	register(&PropDef{
 		ID: "C16", Title: "Coordinate arithmetic (End, Len, Bin, CIGAR lengths, bin lists) matches the spec", Level: "other",
@@ -328,6 +328,7 @@ func init() {
 			{Name: "DEP-ROLES", What: "Lengths/End/IsValid use the Query resp. Reference column of the consumption table for the right result", Floor: 4, Run: ruleDepRoles},
 			{Name: "BIT-CIGAR", What: "CigarOp.Type/Len unpack length<<4|type (bit domain)", Floor: 2, Run: ruleBitCigar},
 			{Name: "PATH-ENDMAX", What: "Record.End returns a running maximum carried through the CIGAR loop (B extension)", Floor: 1, Run: ruleEndMax},
+			{Name: "CIGAR-SPLIT", What: "sam.ParseCigar, splitting a length above 2^28−1: what is left after a piece was taken off is shown positive before an operation is made from it – no zero-length operation for an exact multiple, which would fail IsValid for a valid CIGAR (shared with C06; added after seventh-round seeds C16-h, C06-h)", Floor: 2, Run: ruleCigarSplit},
 		},
 		Explanation: "Bin assignment and bin enumeration agree when they use the same (first bin, shift) pair on every level: BIN-PAIRS extracts the pairs of the BAI functions from their SSA (if-chain and level table) and compares them, by value, with the UCSC scheme; BIN-PAIRS-CSI interprets the two CSI recurrences (after checking that they do not depend on the coordinates) for seven geometries. TAB-CONSUME/DEP-ROLES/BIT-CIGAR: the consumption table equals the specification's and each result is driven by the right column.",
 		NotDecided:  "End's max-over-prefix rule with the B extension, IsValid's clipping rules, CSI geometries other than the seven interpreted – value-level.",
@@ -337,6 +338,9 @@ func init() {
 		Rules: []RuleDef{binBAI, binCSI, binUnplaced, binOneWalk,
 			{Name: "STATS-ADD", What: "tabix: a name is registered only when the underlying index created its reference (shared with C15; under C04 since a fifth-round seed: an unplaced record with a new name made the written index unreadable)", Floor: 4, Run: ruleStatsAdd},
 			{Name: "CHUNKS-FRESH", What: "the list a Chunks method sorts and merges in place is built in that call, never an alias of the index's storage (shared with C17)", Floor: 2, Run: ruleChunksFresh},
+			{Name: "REG2BINS-RANGE", What: "csi.reg2bins shows beg ≥ 0, end > beg and end ≤ a power of two computed from the geometry before it shifts them into uint32 bin numbers: otherwise Chunks(rid, 0, 0) and Chunks(rid, 0, MaxInt64) never return (shared with C11; added for a defect of the unchanged tree, repaired a0a1615)", Floor: 3, Run: ruleReg2binsRange},
+			{Name: "IDX-SIGN", What: "in the exported index methods that can answer no (an ok or error result) an index or slice bound computed from an integer parameter is shown in range: Chunks with a region that starts before the reference, ReferenceStats for a reference the index does not have (shared with C11; defects of the unchanged tree, repaired cf18b3c, d6ea7d4)", Floor: 2, Run: ruleIdxSign},
+			{Name: "STATS-BLIND", What: "no Chunks method (bam, internal, csi, tabix; through their callees) reads the reference statistics: a query is answered from bins and intervals alone (added after seventh-round seed C04-h: an early-out on Stats.Mapped == 0 loses references that hold only placed unmapped reads)", Floor: 4, Run: ruleStatsBlind},
 			{Name: "ARG-AGREE", What: "Add and Chunks hand the same geometry to the bin function / bin enumeration; BAI and tabix file under BinFor of the record's own interval", Floor: 3, Run: ruleArgAgree},
 			{Name: "COUPLED-TABIX", What: "tabix: refNames append ⇔ nameMap insert", Floor: 1, Run: ruleCoupledTabix},
 			{Name: "SORTED-PRE", What: "every application of a merge strategy is to a chunk list sorted by begin offset", Floor: 5, Run: ruleSortedPre},
